@@ -12,15 +12,17 @@ trap 'git -C /repo worktree remove --force "$d" >/dev/null 2>&1; rm -rf "$d"' EX
 m=$d/code/go/0chain.net
 echo 'replace github.com/linxGnu/grocksdb => /tmp/seedkit/grocksdb' >> $m/go.mod
 place_demo() {
-  if [ -f "$seed/demo/run_demo.sh" ]; then
+  runner=""
+  for r in run_demo.sh run.sh; do [ -f "$seed/demo/$r" ] && runner=$r && break; done
+  if [ -n "$runner" ]; then
     # the author's own runner, re-pointed at this scratch worktree
     mkdir -p "$d/SEED"; cp -r "$seed/demo" "$d/SEED/demo"
-    orig=$(grep -o '/tmp/seed/[A-Za-z0-9_]*' "$seed/demo/run_demo.sh" | head -1)
-    sed -i "s|$orig|$d|g" "$d/SEED/demo/run_demo.sh"
-    DEMO="sh $d/SEED/demo/run_demo.sh"
+    orig=$(grep -o '/tmp/seed/[A-Za-z0-9_]*' "$seed/demo/$runner" | head -1)
+    sed -i "s|$orig|$d|g" "$d/SEED/demo/$runner"
+    DEMO="sh $d/SEED/demo/$runner"
     return 0
   fi
-  if ls "$seed"/demo/*_test.go >/dev/null 2>&1; then
+  if ls "$seed"/demo/*_test.go >/dev/null 2>&1 && ! ls "$seed"/demo/main.go >/dev/null 2>&1; then
     # test-file demos: README must say where; convention: meta.json "demo_pkg"
     pkg=$(python3 -c "
 import json,re
@@ -35,7 +37,7 @@ print(p)")
     DEMO="go test -vet=off -count=1 -run TestSeed ./$pkg/"
   else
     mkdir -p $m/cmd_seed_demo
-    if ls "$seed"/demo/*.go >/dev/null 2>&1; then cp "$seed"/demo/*.go $m/cmd_seed_demo/; else cp "$seed"/demo/*/*.go $m/cmd_seed_demo/; fi
+    if ls "$seed"/demo/main.go >/dev/null 2>&1; then cp "$seed"/demo/main.go $m/cmd_seed_demo/; elif ls "$seed"/demo/*.go >/dev/null 2>&1; then cp "$seed"/demo/*.go $m/cmd_seed_demo/; else cp "$seed"/demo/*/*.go $m/cmd_seed_demo/; fi
     DEMO="go run ./cmd_seed_demo"
   fi
 }
